@@ -118,3 +118,64 @@ func ZZVerif_C06_Detect() {
 		zzverif.Assert("table holds exactly the surviving tracked blocks", inDB == keep)
 	}
 }
+
+// ZZVerif_C06_StopDuringReorg: NT tracked blocks, the last K replaced; the detection pass notifies the subscriber and waits for
+// its acknowledgement. At that moment - the subscriber has been told but has not rewound its store yet - the node stops: a new
+// detector is opened on the same database. It still tracks every replaced block, so the reorg is detected and notified again
+// after the restart (the subscriber's store is rewound then).
+func ZZVerif_C06_StopDuringReorg() {
+	nt := zzverif.Param("NT")
+	k := zzverif.Param("K")
+	ctx := context.Background()
+	eth := &zzEth{failAt: -1}
+	for i := range eth.salt {
+		eth.salt[i] = zzverif.Hash("salt")
+	}
+	eth.finalized = uint64(zzverif.Int("finalized", 0, nt-k)) // the replaced blocks are not finalized
+	zzLastDBPath = zzverif.TempDB("reorg")
+	rd, err := New(eth, Config{DBPath: zzLastDBPath, FinalizedBlock: aggkittypes.FinalizedBlock}, L1)
+	zzverif.Assert("detector created", err == nil)
+	sub, err := rd.Subscribe("syncer")
+	zzverif.Assert("subscribed", err == nil)
+	sub.ReorgedBlock = make(chan uint64, 8)
+	sub.ReorgProcessed = make(chan bool, 8)
+	nums := make([]uint64, nt)
+	for i := 0; i < nt; i++ {
+		nums[i] = 1 + uint64(i)
+		h := eth.canon(nums[i]).Hash()
+		if i >= nt-k {
+			h = zzverif.Hash("oldHash")
+			zzverif.Assume(h != eth.canon(nums[i]).Hash())
+		}
+		zzverif.Assert("tracked", rd.AddBlockToTrack(ctx, "syncer", nums[i], h) == nil)
+	}
+	first := nums[nt-k]
+	served := false
+	zzverif.WhenBlocked(func() {
+		n := <-sub.ReorgedBlock
+		served = true
+		zzverif.Assert("notified with the first replaced block", n == first)
+		// the node stops here: what a restarted detector finds in the database
+		rd2, err := New(eth, Config{DBPath: rd.dbPathForVerif(), FinalizedBlock: aggkittypes.FinalizedBlock}, L1)
+		zzverif.Assert("detector recreated", err == nil)
+		if err == nil {
+			zzverif.Assert("tracked blocks loaded", rd2.loadTrackedHeaders() == nil)
+			hl := rd2.trackedBlocks["syncer"]
+			for i := nt - k; i < nt; i++ {
+				ok := hl != nil
+				if ok {
+					_, e := hl.get(nums[i])
+					ok = e == nil
+				}
+				zzverif.Assert("a detector restarted before the acknowledgement still tracks the replaced block (the reorg is found again)", ok)
+			}
+		}
+		sub.ReorgProcessed <- true
+	})
+	err = rd.detectReorgInTrackedList(ctx)
+	zzverif.Assert("detection pass ok", err == nil)
+	zzverif.Assert("the subscriber was notified", served)
+	if served {
+		zzverif.Reach("served")
+	}
+}
